@@ -72,7 +72,11 @@ Inductive case :=
 | CEmbeddedRestore (splits runners : N) (panicked : bool) (states : list (N * N)) (o : list (list N)) (o_cur : list (N * option N))
 | CHttp (runners : N) (states : list (list N)) (o : list (N * list N))
 | CHttpRead (n b : N) (ops : list hop)
-| CKinRead (limit : N) (ops : list krop).
+| CKinRead (limit : N) (ops : list krop)
+(* a re-deployment by the real Job: checkpoint current when the job chose (0 = none), the newest complete checkpoint,
+   ids the operators were deployed from, id the splitter was started from, positions handed to the splitter,
+   published positions of checkpoints n1 (= the older) and n2 *)
+| CJobRestore (cur newest : N) (ops_from : list N) (splitter_from : N) (handed pos_old pos_new : list N).
 
 (* ================= runner: positions match the cut ================= *)
 
@@ -369,6 +373,16 @@ Definition check_case (c : case) : list N :=
          flag (list_eqb N.eqb (map fst o_cur) (concat o)
                && forallb (fun sc => match snd sc, embedded_cursor states (fst sc) with
                                      | Some a, Some b => a =? b | None, None => true | _, _ => false end) o_cur) 123)
+  | CJobRestore cur newest ops_from sfrom handed pos_old pos_new =>
+      let '(mo, ms) := job_start cur newest in
+      flag (forallb (N.eqb mo) ops_from && (ms =? sfrom)) 70 ++
+      (* the splitter is restored from the checkpoint the operators were deployed from *)
+      flag (forallb (N.eqb sfrom) ops_from && negb (match ops_from with [] => true | _ => false end)) 140 ++
+      (* ... and is handed the split positions of that checkpoint *)
+      flag (match ops_from with
+            | o :: _ => if o =? newest then list_eqb N.eqb handed pos_new
+                        else if o =? 0 then forallb (N.eqb 0) handed else list_eqb N.eqb handed pos_old
+            | [] => true end) 141
   | CKinRead limit ops => check_kinread limit ops kr_new [] [] []
   | CHttpRead n b ops => check_httpread n b ops (h_assign 0) 0 0 0
   | CHttp runners states o =>
